@@ -478,7 +478,7 @@ func TestSpec(t *testing.T) {
 	if evid.Thorough() {
 		o.MaxDepth = 4
 	}
-	evid.Check(t, "Spec", 80000, func(rt *rapid.T) {
+	evid.Check(t, "Spec", 50000, func(rt *rapid.T) {
 		before := o.Avoided["enum-on-non-int32"]
 		c := genCase(rt, o)
 		for i := before; i < o.Avoided["enum-on-non-int32"]; i++ {
